@@ -20,6 +20,8 @@ def plan(tier, seed):
                  payload=dict(func="vf.pyshim.lemma_v2:v2_inplace")),
             dict(name="C01-lemma-tz-offset-text", kind="pyfunc", timeout=300,
                  payload=dict(func="vf.pyshim.lemma_tz:tz_offset_text")),
+            dict(name="C01-lemma-time-roundtrip", kind="pyfunc", timeout=400,
+                 payload=dict(func="vf.pyshim.lemma_time:time_roundtrip")),
             dict(name="C01-lemma-range-index", kind="pyfunc", timeout=300,
                  payload=dict(func="vf.pyshim.lemmas:range_index", kwargs=dict(max_step=6)))]
     wc = wc_lattice.jobs("C01", tier)
